@@ -262,4 +262,20 @@ def run(ctx):
                 bad.append("%s at line %s" % (what, sp["line"]))
         ctx.check(not bad, "forward", f.short(), c.loc(), "%s: own effects happen only after the creation succeeded (error propagated first)" % f.short(),
                   "%s has effects not dominated by the success of the creation call: %s" % (f.short(), "; ".join(bad)))
-    ctx.assume("tick_size > 0 (asserted by OrderBook::new)")
+    # the assumption the remainder tests rest on: a book cannot be built with tick size 0
+    nf = m.book_fn("new")
+    nq = m.q(nf)
+    asserted = False
+    for blk in nq.body.blocks:
+        t = blk.term
+        if blk.cleanup or not t or t.k != "switch":
+            continue
+        for tgt in set(nq.body.succs(blk.i)):
+            tt = nq.body.blocks[tgt].term
+            diverges = tt is not None and tt.k == "call" and (tt.callee_name or "").startswith("panic") or (tt is not None and tt.k in ("unreachable",))
+            for a in nq.cfg.edge_atoms(blk.i, tgt):
+                if diverges and a[0] == "cmp" and a[2][0] == "param" and a[2][2] == "tick_size" and a[3][0] == "const" and ((a[1] in ("le", "eq") and a[3][3] == 0) or (a[1] == "lt" and a[3][3] == 1)):
+                    asserted = True
+    ctx.check(asserted, "create", "tick-positive", ctx.loc(nf), "OrderBook::new refuses a tick size of 0 (the `price % tick_size` tests cannot divide by zero)",
+              "OrderBook::new accepts tick_size == 0: every limit-order creation would divide by zero")
+    ctx.assume("tick_size > 0 (asserted by OrderBook::new; a deserialised snapshot is assumed to come from such a book)")
